@@ -527,7 +527,7 @@ class View:
         ups = set(ups)
         return any(l in ups for x in self.sub(t) for l in self.preds(x) + self.succs(x))
 
-    def ok_parent(self, t, p):
+    def ok_parent(self, t, p, links=True):
         if p == t:
             return False
         if self.own(t) is None:
@@ -537,7 +537,7 @@ class View:
             return False
         if p is not None:
             a = self.anc(p)
-            if t in a or self.links_bad(t, [p] + a):
+            if t in a or (links and self.links_bad(t, [p] + a)):
                 return False
         return True
 
@@ -570,9 +570,9 @@ ID_POOL = [0, 1, 2, 3, 4, 5, 7, 9, -1, 12]
 KINDS = [('SetParent', 12), ('SetChildren', 9), ('SetLinks', 8), ('ChAppend', 9), ('ChRemove', 3), ('ChInsert', 8),
          ('ChMove', 8), ('ChSort', 4), ('ChReorder', 4), ('ChRemoveAll', 2), ('LnAppend', 5), ('LnRemove', 3),
          ('LnRemoveAll', 2), ('OpFloordiv', 9), ('OpShift', 7), ('LstShift', 5), ('LstSetParent', 2), ('WbsRemove', 2),
-         ('WbsRemoveAll', 2), ('SetEst', 1), ('SetPrio', 2)]
-P_ILLEGAL = 0.36
-P_STALE = 0.15
+         ('WbsRemoveAll', 2), ('SetEst', 1), ('SetPrio', 2), ('DeepLink', 5)]
+P_ILLEGAL = 0.43
+P_STALE = 0.21      # share of list calls that ASK for a pooled facade; ~15 % find one
 
 
 def pick_form(rng, vs, allow_iter=True, allow_none=True):
@@ -608,6 +608,7 @@ class Gen:
         self.made_tasks = 0
         self.made_wbs = 0
         self.used_ids = []
+        self.deep_left = 0
 
     # ---- choices ----
     def want_illegal(self):
@@ -708,8 +709,15 @@ class Gen:
         if len(users) < 2 or (need and rng.random() < min(1.0, 3.0 * need / left)):
             if need:
                 return self.gen_create(V)
+        if self.deep_left > 0 and rng.random() < 0.75:       # an aimed episode in progress (g_DeepLink)
+            self.deep_left -= 1
+            r = self.g_DeepLink(V)
+            if r is not None:
+                return r
         for _ in range(20):
             kind = rng.choices([k for k, _ in KINDS], [w for _, w in KINDS])[0]
+            if kind == 'DeepLink' and self.deep_left == 0:
+                self.deep_left = 6
             r = getattr(self, 'g_' + kind)(V)
             if r is not None:
                 return r
@@ -817,20 +825,39 @@ class Gen:
         return ['ChRemove', o, t], {'facade': k}
 
     def g_ChInsert(self, V):
+        """children.insert / roots.insert: member and non-member tasks, the index drawn from the boundary set
+        {0, L-1, L, L+1, -1, -L, -L-1, -L-2} of the CURRENT length L (the valid range is [-n, n) with
+        n = L for a member, L + 1 for a newcomer)"""
         rng = self.rng
         o, k = self.ch_owner(V)
+        if len(V.kids(o)) < 2 and rng.random() < 0.5:
+            big = [x for x in self.owners(V) if len(V.kids(x)) >= 2]
+            if big:
+                o, k = rng.choice(big), None
+        kids = V.kids(o)
+        L = len(kids)
         illegal = self.want_illegal()
-        good = [t for t in V.users() if V.ok_parent(t, o)]
-        bad = [t for t in V.users() if not V.ok_parent(t, o)]
-        bad_index = illegal and rng.random() < 0.6
-        t = self.choose(good, bad, illegal and not bad_index)
-        if t is None or (illegal and rng.random() < 0.05):
+        if illegal and rng.random() < 0.04:
             return ['ChInsert', o, rng.randint(-2, 2), None], {'facade': k}
-        n = len([x for x in V.kids(o) if x != t]) + 1
-        if bad_index:
-            i = rng.choice([n, n + 1, -n - 1, 99, -99, n])
+        bad_index = illegal and rng.random() < 0.65
+        if kids and rng.random() < 0.45:
+            # a task that is already in the list - mostly not the last one, so that a move to the end shows
+            t = rng.choice(kids[:-1]) if L >= 2 and rng.random() < 0.75 else rng.choice(kids)
         else:
-            i = rng.randint(-n, n - 1)
+            good = [t for t in V.users() if t not in kids and V.ok_parent(t, o)]
+            bad = [t for t in V.users() if t not in kids and not V.ok_parent(t, o)]
+            t = self.choose(good, bad, illegal and not bad_index)
+            if t is None:
+                t = rng.choice(V.users())
+        n = len([x for x in kids if x != t]) + 1
+        boundary = [0, L - 1, L, L + 1, -1, -L, -L - 1, -L - 2]
+        r = rng.random()
+        if r < 0.15:
+            i = rng.choice(boundary + [99, -99, rng.randint(-L - 3, L + 3)])
+        elif bad_index:
+            i = rng.choice([b for b in boundary if not -n <= b < n])
+        else:
+            i = rng.choice([b for b in boundary if -n <= b < n])
         return ['ChInsert', o, i, t], {'facade': k}
 
     def g_ChMove(self, V):
@@ -1077,6 +1104,73 @@ class Gen:
         if not pool:
             return None
         return ['LstSetParent', ts, rng.choice(pool)], {'src': s}
+
+    def g_DeepLink(self, V):
+        """aims at `a task is re-parented below a task that one of its DEEP descendants (>= 2 levels down) is
+        linked with` - the check of the links of the whole moved subtree against the new parent chain.
+        When the situation exists the illegal re-parenting is issued in one of its spellings; otherwise one
+        step towards it: grow a chain m -> c -> g, link g with a task of another tree."""
+        rng = self.rng
+        users = V.users()
+        strikes, deep = [], []
+        for m in users:
+            subm = V.sub(m)
+            sset = set(subm)
+            for g in subm:
+                if g == m or V.par(g) == m:
+                    continue
+                deep.append((m, g))
+                for x in V.preds(g) + V.succs(g):
+                    if x in sset or V.hid(x):
+                        continue
+                    for p in V.sub(x):             # x is the new parent or one of its ancestors
+                        if p not in sset and not V.hid(p) and V.par(m) != p and V.ok_parent(m, p, links=False):
+                            strikes.append((m, p))
+        if strikes:
+            m, p = rng.choice(strikes)
+            kids = V.kids(p)
+            how = {'aim': 'deep-link-strike'}
+            r = rng.random()
+            if r < 0.3:
+                return ['SetParent', m, p], how
+            if r < 0.45:
+                return ['ChAppend', p, m], how
+            if r < 0.6:
+                return ['ChInsert', p, rng.randint(-len(kids) - 1, len(kids)), m], how
+            if r < 0.8:
+                vs = [m] if rng.random() < 0.6 or not users else [m, rng.choice(users)]
+                return ['OpFloordiv', p, vs], dict(how, form=pick_form(rng, vs), v=rng.choice([None, 'iadd']))
+            vs = kids + [m]
+            if rng.random() < 0.5:
+                rng.shuffle(vs)
+            return ['SetChildren', p, vs], dict(how, form=pick_form(rng, vs))
+        how = {'aim': 'deep-link-build'}
+        rng.shuffle(deep)
+        for m, g in deep:                         # link the deep descendant with a task of another tree
+            d = rng.random() < 0.5
+            tree = set(V.sub(V.root(m)))
+            cur = V.preds(g) if d else V.succs(g)
+            xs = [x for x in users if x not in tree and x not in cur and V.ok_links(d, g, cur + [x])]
+            if xs:
+                x = rng.choice(xs)
+                r = rng.random()
+                if r < 0.4:
+                    return ['LnAppend', d, g, x], how
+                if r < 0.7:
+                    return ['OpShift', not d, x, [g]], how          # from the other end
+                return ['SetLinks', d, g, cur + [x]], how
+        two = [(m, c) for m in users for c in V.kids(m) if not V.kids(c)]
+        rng.shuffle(two)
+        for m, c in two:                          # a third level
+            gs = [g for g in users if V.par(g) != c and V.ok_parent(g, c) and not V.kids(g)]
+            if gs:
+                g = rng.choice(gs)
+                return (['SetParent', g, c] if rng.random() < 0.5 else ['ChAppend', c, g]), how
+        pairs = [(c, m) for m in users for c in users if c != m and V.par(c) != m and not V.kids(c) and V.ok_parent(c, m)]
+        if pairs:
+            c, m = rng.choice(pairs)
+            return ['SetParent', c, m], how
+        return None
 
     def g_WbsRemove(self, V):
         rng = self.rng
